@@ -548,6 +548,52 @@ class _InitExpr(pystmt.Expr):
         return super().cond(n)
 
 
+def _pure_test(n):
+    """a test built from attribute reads, names, constants, comparisons and and/or/not only: evaluating it has no effect"""
+    if isinstance(n, (ast.Name, ast.Constant)):
+        return True
+    if isinstance(n, ast.Attribute):
+        return _pure_test(n.value)
+    if isinstance(n, ast.Compare):
+        return _pure_test(n.left) and all(_pure_test(c) for c in n.comparators) and all(isinstance(o, (ast.Eq, ast.NotEq, ast.Is, ast.IsNot)) for o in n.ops)
+    if isinstance(n, ast.BoolOp):
+        return all(_pure_test(v) for v in n.values)
+    if isinstance(n, ast.UnaryOp) and isinstance(n.op, ast.Not):
+        return _pure_test(n.operand)
+    return False
+
+
+def _split_shared_guard(steps):
+    """`if A: (if B: X) (if C: Y)` reads as `if A and B: X` then `if A and C: Y` when A is a pure test and neither X nor Y
+    assigns anything A reads (a tidy-up that evaluates a shared guard once must not look like a different constructor:
+    harmless rewrite 10 of seeded/harmless4).  Anything else is left as written."""
+    out = []
+    for s in steps:
+        inner = None
+        if isinstance(s, ast.If) and not s.orelse and _pure_test(s.test):
+            body = [b for b in s.body if not isinstance(b, (ast.Import, ast.ImportFrom))]
+            if len(body) >= 2 and all(isinstance(b, ast.If) and not b.orelse and _pure_test(b.test) for b in body):
+                reads = {_u(a) for a in ast.walk(s.test) if isinstance(a, ast.Attribute)}
+                writes = set()
+                simple = True
+                for b in body:
+                    for st_ in ast.walk(b):
+                        if isinstance(st_, (ast.Assign, ast.AugAssign, ast.AnnAssign)):
+                            for t in (st_.targets if isinstance(st_, ast.Assign) else [st_.target]):
+                                writes.add(_u(t))
+                        elif isinstance(st_, (ast.Delete, ast.Global, ast.Nonlocal, ast.With, ast.Try, ast.For, ast.While, ast.Return)):
+                            simple = False
+                if simple and not (reads & writes) and not any(w == r or r.startswith(w + ".") for w in writes for r in reads):
+                    inner = body
+        if inner is None:
+            out.append(s)
+        else:
+            for b in inner:
+                n = ast.If(test=ast.BoolOp(op=ast.And(), values=[s.test, b.test]), body=b.body, orelse=[])
+                out.append(ast.copy_location(n, b))
+    return out
+
+
 def t_init_body(sch, types):
     fn = _method(sch, "FlatColumn", "__init__")
     body = _nodoc(fn.body)
@@ -557,6 +603,7 @@ def t_init_body(sch, types):
     steps = body[loops[0] + 1:]
     if not steps:
         raise Untranslatable("__init__: nothing after the attribute loop")
+    steps = _split_shared_guard(steps)
     ret_names = _from_name_return(types)
 
     def class_test(n):
